@@ -398,3 +398,88 @@ Proof. induction 1; cbn [forallb]; [reflexivity|]. apply andb_true_iff; split; a
 Lemma wf_list_to (l : list val) : forallb wfb l = true -> Forall wf l.
 Proof. intro H. apply Forall_forall. rewrite forallb_forall in H. exact H. Qed.
 
+Lemma all_ok_wf {A} (l : list A) (F : A -> cres) vs :
+  (forall a v, In a l -> F a = COk v -> wf v) -> all_ok (map F l) = inl (Some vs) -> Forall wf vs.
+Proof.
+  intros H E. apply all_ok_inv in E. revert vs E. induction l as [|a r IH]; intros vs E; cbn [map] in E;
+    inversion E as [|? y ? ys Hy Hys]; subst; constructor.
+  - eapply H; [left; reflexivity|exact Hy].
+  - apply IH; [|exact Hys]. intros; eapply H; [right; eassumption|eassumption].
+Qed.
+
+Lemma all_ok_inr l : forall c r, all_ok l = inr c -> c <> COk r.
+Proof.
+  induction l as [|x t IH]; intros c r E; cbn [all_ok fold_right] in E; [discriminate E|].
+  fold (all_ok t) in E. destruct (all_ok t) as [[ws|]|e] eqn:A.
+  - destruct x; try discriminate E; injection E as <-; discriminate.
+  - injection E as <-. discriminate.
+  - injection E as <-. eapply IH. reflexivity.
+Qed.
+
+Lemma wf_combine_snd (ks : list (list Z)) (vs : list val) :
+  Forall wf vs -> forallb (fun p => wfb (snd p)) (combine ks vs) = true.
+Proof.
+  intro H. revert ks. induction H as [|v r Hv _ IH]; intro ks; destruct ks; cbn [combine forallb snd]; auto.
+  apply andb_true_iff; split; [exact Hv|apply IH].
+Qed.
+
+Lemma In_wf_list (l : list val) x : forallb wfb l = true -> In x l -> wf x.
+Proof. intros H I. rewrite forallb_forall in H. apply H, I. Qed.
+Lemma In_wf_kv (l : list (list Z * val)) p : forallb (fun p => wfb (snd p)) l = true -> In p l -> wf (snd p).
+Proof. intros H I. rewrite forallb_forall in H. apply (H p), I. Qed.
+
+Lemma convert_wf : forall f v want r, wf v -> convert f v want = COk r -> wf r.
+Proof.
+  induction f as [|f IH]; intros v want r W E; [discriminate E|].
+  destruct v; cbn [convert] in E.
+  all: try (cbn [type_of] in E;
+            repeat (bm E; try discriminate E; try (injection E as <-; first [exact W | reflexivity | apply finish_unknown_wf])); fail).
+  - (* list *)
+    unfold wf in W; cbn [wfb] in W.
+    repeat (bm E; try discriminate E).
+    all: try (subst; exfalso; eapply all_ok_inr; [eassumption|reflexivity]).
+    all: injection E as <-; try exact W.
+    all: unfold wf; cbn [wfb]; apply wf_list_of.
+    all: eapply all_ok_wf; [|eassumption]; intros a v Ia Ea.
+    all: eapply IH; [eapply In_wf_list; eassumption|exact Ea].
+  - (* set *)
+    unfold wf in W; cbn [wfb] in W.
+    repeat (bm E; try discriminate E).
+    all: try (subst; exfalso; eapply all_ok_inr; [eassumption|reflexivity]).
+    all: injection E as <-; try exact W.
+    all: unfold wf; cbn [wfb]; apply wf_list_of.
+    all: eapply all_ok_wf; [|eassumption]; intros a v Ia Ea.
+    all: eapply IH; [eapply In_wf_list; eassumption|exact Ea].
+  - (* map *)
+    unfold wf in W; cbn [wfb] in W.
+    repeat (bm E; try discriminate E).
+    all: try (subst; exfalso; eapply all_ok_inr; [eassumption|reflexivity]).
+    all: injection E as <-; try exact W.
+    all: unfold wf; cbn [wfb]; apply wf_combine_snd.
+    all: eapply all_ok_wf; [|eassumption]; intros a v Ia Ea.
+    all: eapply IH; [eapply In_wf_kv; eassumption|exact Ea].
+  - (* tuple *)
+    unfold wf in W; cbn [wfb] in W.
+    repeat (bm E; try discriminate E).
+    all: try (subst; exfalso; eapply all_ok_inr; [eassumption|reflexivity]).
+    all: injection E as <-; try exact W.
+    all: unfold wf; cbn [wfb]; apply wf_list_of.
+    all: eapply all_ok_wf; [|eassumption]; intros a v Ia Ea.
+    + eapply IH; [eapply In_wf_list; eassumption|exact Ea].
+    + destruct a as [x w]. apply in_combine_l in Ia. cbn [fst] in Ea. eapply IH; [eapply In_wf_list; eassumption|exact Ea].
+  - (* object *)
+    unfold wf in W; cbn [wfb] in W.
+    repeat (bm E; try discriminate E).
+    all: try (subst; exfalso; eapply all_ok_inr; [eassumption|reflexivity]).
+    all: injection E as <-; try exact W.
+    all: unfold wf; cbn [wfb]; apply wf_combine_snd.
+    all: eapply all_ok_wf; [|eassumption]; intros a v Ia Ea.
+    + eapply IH; [eapply In_wf_kv; eassumption|exact Ea].
+    + cbn beta in Ea. destruct (assoc_get (fst a) l) eqn:G; [|discriminate Ea]. eapply IH; [eapply wf_assoc_get; eassumption|exact Ea].
+  - (* mark *)
+    destruct (convert f v want) eqn:C; try discriminate E. injection E as <-. apply wf_with_marks.
+    eapply IH; [|exact C]. unfold wf in *. cbn [wfb] in W. apply andb_true_iff in W as [_ W]. exact W.
+Qed.
+
+Lemma conv_wf v want r : wf v -> conv v want = COk r -> wf r.
+Proof. unfold conv. apply convert_wf. Qed.
